@@ -133,6 +133,9 @@ impl Monitor for C01 {
             Tier::Thorough => RAND_POOL,
         };
         v.extend(split_chunks("rand", seed_offset(seed, "C01", RAND_POOL), n, RAND_POOL, 150));
+        // the optimiser-bait and hardware profiles are valid C too: judged against the reference
+        let nb = n / 4;
+        v.extend(split_chunks("bait", seed_offset(seed, "C01b", 400_000), nb, 400_000, 150));
         v
     }
     fn run_case(&self, kind: &str, idx: u64) -> CaseResult {
@@ -141,6 +144,55 @@ impl Monitor for C01 {
             "matrix" => {
                 let p = crate::matrix::matrix_program(idx);
                 judge_program("C01", kind, idx, &p, "C01m", &[0, 1], None)
+            }
+            "bait" => {
+                let p = crate::bait::bait_program(idx);
+                // inline assembly that loads registers is not modelled by the reference
+                fn has_reg_asm(s: &Stmt) -> bool {
+                    match s {
+                        Stmt::Asm(t, _) => !t.starts_with("NOP"),
+                        Stmt::If(_, a, b) => has_reg_asm(a) || b.as_ref().map(|b| has_reg_asm(b)).unwrap_or(false),
+                        Stmt::While(_, b) | Stmt::DoWhile(b, _) | Stmt::For(_, _, _, b) | Stmt::Labeled(_, b) => has_reg_asm(b),
+                        Stmt::Block(v) => v.iter().any(has_reg_asm),
+                        Stmt::Switch(_, c, d) => c.iter().any(|c| c.1.iter().any(has_reg_asm)) || d.as_ref().map(|d| d.iter().any(has_reg_asm)).unwrap_or(false),
+                        _ => false,
+                    }
+                }
+                if p.funcs.iter().any(|f| f.body.iter().any(has_reg_asm)) {
+                    return CaseResult::new("bait program with register-loading asm (judged by C02 only)", idx);
+                }
+                // relational comparison with the constant 0: recorded family unsigned_relational_zero
+                fn rel_zero(e: &Expr) -> bool {
+                    match e {
+                        Expr::Bin(op, a, b) => {
+                            (matches!(op, BinOp::Lt | BinOp::Le | BinOp::Gt | BinOp::Ge)
+                                && (matches!(**a, Expr::Num(0) | Expr::Hex(0)) || matches!(**b, Expr::Num(0) | Expr::Hex(0))))
+                                || rel_zero(a)
+                                || rel_zero(b)
+                        }
+                        Expr::Un(_, a) | Expr::Paren(a) => rel_zero(a),
+                        Expr::Assign(_, r) | Expr::OpAssign(_, _, r) => rel_zero(r),
+                        Expr::Cond(a, b, c) => rel_zero(a) || rel_zero(b) || rel_zero(c),
+                        Expr::Comma(a, b) => rel_zero(a) || rel_zero(b),
+                        _ => false,
+                    }
+                }
+                fn stmt_rel_zero(s: &Stmt) -> bool {
+                    match s {
+                        Stmt::Expr(e) => rel_zero(e),
+                        Stmt::If(c, a, b) => rel_zero(c) || stmt_rel_zero(a) || b.as_ref().map(|b| stmt_rel_zero(b)).unwrap_or(false),
+                        Stmt::While(c, b) | Stmt::DoWhile(b, c) => rel_zero(c) || stmt_rel_zero(b),
+                        Stmt::For(a, b, c, d) => [a, b, c].iter().any(|e| e.as_ref().map(rel_zero).unwrap_or(false)) || stmt_rel_zero(d),
+                        Stmt::Labeled(_, b) => stmt_rel_zero(b),
+                        Stmt::Block(v) => v.iter().any(stmt_rel_zero),
+                        Stmt::Switch(e, c, d) => rel_zero(e) || c.iter().any(|c| c.1.iter().any(stmt_rel_zero)) || d.as_ref().map(|d| d.iter().any(stmt_rel_zero)).unwrap_or(false),
+                        _ => false,
+                    }
+                }
+                if p.funcs.iter().any(|f| f.body.iter().any(stmt_rel_zero)) {
+                    return CaseResult::new("bait program inside a recorded family (relational comparison with 0)", idx);
+                }
+                judge_program("C01", kind, idx, &p, "C01b", &[0, 1], None)
             }
             _ => {
                 let p = gen_program("C01", idx, &cfg_c01());
